@@ -231,7 +231,32 @@ def loop_heads(text):
     return res
 
 
-def attach_loop_contracts(text, loops, what):
+SPEC_FILE = 'spec_inserted.c'
+
+
+def current_line(text, pos, base_line, repo_file):
+    """source line (in the repo file) of offset pos, taking earlier #line directives into account"""
+    last = None
+    for m in re.finditer(r'^#line (\d+) "([^"]*)"$', text[:pos], flags=re.M):
+        last = m
+    if last is None:
+        return base_line + text.count('\n', 0, pos)
+    if last.group(2) != repo_file:
+        # inside inserted spec text: not expected for an insertion point
+        return base_line
+    return int(last.group(1)) + text.count('\n', last.end(), pos) - 1
+
+
+def wrap_spec(text_to_insert, text, pos, base_line, repo_file):
+    """inserted specification text gets its own #line so that CBMC attributes its obligations to the spec,
+    not to the repo source"""
+    if base_line is None:
+        return ' ' + text_to_insert + ' '
+    ln = current_line(text, pos, base_line, repo_file)
+    return '\n#line 1 "%s"\n%s\n#line %d "%s"\n' % (SPEC_FILE, text_to_insert, ln, repo_file)
+
+
+def attach_loop_contracts(text, loops, what, base_line=None, repo_file=None):
     """loops: list of {ordinal, contract}; ordinal counts for/while heads from 1"""
     heads = loop_heads(text)
     ins = []
@@ -239,9 +264,9 @@ def attach_loop_contracts(text, loops, what):
         k = int(lp['ordinal'])
         if k < 1 or k > len(heads):
             raise ExtractionBroken('%s: loop ordinal %d but body has %d loops' % (what, k, len(heads)))
-        ins.append((heads[k - 1][1] + 1, '\n' + lp['contract'].strip() + '\n'))
+        ins.append((heads[k - 1][1] + 1, lp['contract'].strip()))
     for pos, t in sorted(ins, reverse=True):
-        text = text[:pos] + t + text[pos:]
+        text = text[:pos] + wrap_spec(t, text, pos, base_line, repo_file) + text[pos:]
     return text, len(heads)
 
 
@@ -255,7 +280,7 @@ def loop_body_span(text, head):
     return k, match_close(text, k, '{', '}')
 
 
-def insert_ghosts(text, ghosts, what):
+def insert_ghosts(text, ghosts, what, base_line=None, repo_file=None):
     """ghost statements at regex anchors (after=/before=) or at loop-relative positions
     (at = "body_start:K" | "body_end:K" | "after:K" | "before:K" | "end" | "start", K = loop ordinal)"""
     ins = []
@@ -287,5 +312,5 @@ def insert_ghosts(text, ghosts, what):
             ins.append((m.end() if 'after' in g else m.start(), g['text']))
     # stable: later-listed ghosts at the same position come later in the text
     for idx, (pos, t) in sorted(enumerate(ins), key=lambda x: (-x[1][0], -x[0])):
-        text = text[:pos] + ' ' + t.strip() + ' ' + text[pos:]
+        text = text[:pos] + wrap_spec(t.strip(), text, pos, base_line, repo_file) + text[pos:]
     return text
